@@ -225,7 +225,8 @@ func read(r io.Reader) (map[byte][]bucket, error) {
 				if lastItemWasDelimiter {
 					h[tag] = append(l, v)
 				} else {
-					h[tag] = []bucket{append(l[0], v...)}
+					// fragment of the value which was read last
+					l[len(l)-1] = append(l[len(l)-1], v...)
 				}
 			} else {
 				h[tag] = []bucket{v}
